@@ -246,7 +246,10 @@ def driver(lines, main, timeout=3000):
         return _drive_chunk((cmd, lines, timeout))
     import concurrent.futures
 
-    n = 16
+    import multiprocessing
+
+    # inside a worker of a harness's own process pool the pool already fills the cores
+    n = 16 if multiprocessing.current_process().name == 'MainProcess' else 2
     step = (len(lines) + n - 1) // n
     chunks = [lines[i:i + step] for i in range(0, len(lines), step)]
     out = []
